@@ -432,6 +432,10 @@ impl Skiplist {
 
 	/// Random height
 	fn random_height(&self) -> u32 {
+		#[cfg(surrealkv_verif)]
+		if let Some(h) = crate::verif::forced_height() {
+			return h.clamp(1, MAX_HEIGHT as u32);
+		}
 		let rnd: u32 = rand::rng().random();
 		let mut h = 1u32;
 		let probs = probabilities();
